@@ -304,7 +304,9 @@ where
         if let State::OnDisk(file) = &self.inner {
             file.file_size()
         } else {
-            0
+            // An index file may exist while the index is held in memory (loaded back for a deletion,
+            // active blob after restart): it still occupies disk space
+            std::fs::metadata(self.name.as_path()).map(|m| m.len()).unwrap_or(0)
         }
     }
 }
